@@ -149,7 +149,8 @@ def step (_ : Unit) (line : String) : Unit × String :=
     ((), if FxVerif.Gen.C20Handler.abciQueryRecoversFirst && FxVerif.Gen.C20Handler.abciQueryRoutesGrpc then "recovered" else "escaped")
   | ["qroute", known] =>
     -- every recorded call of a panic-hosting function behind the crosschain query router carries its dominating test
-    let guarded := FxVerif.Gen.C20Handler.qcalls.all (fun c => c.guarded && c.guard != "") && !FxVerif.Gen.C20Handler.qcalls.isEmpty
+    -- (no panic-hosting callee behind a query at all: nothing to guard)
+    let guarded := FxVerif.Gen.C20Handler.qcalls.all (fun c => c.guarded && c.guard != "")
     ((), if known == "1" then "routed" else if guarded then "err" else "panic")
   | ["hpanic", fnName, votes] =>
     match FxVerif.Gen.C20Handler.nodes.find? (·.name == fnName) with
